@@ -14,6 +14,11 @@
  *   cont <N> <K> <op> <C> <seed>   the count of a node changed by CONTAINER paths (destroying /
  *        emptying / overwriting a container that holds it) in one thread while N workers
  *        get/put it directly; see case_cont.
+ *   last <N> <R> <seed>   R rounds: N threads own one reference each of a fresh node (nobody else
+ *        does) and release them at the same moment; see case_last.
+ *   sched <what>   the model driver explores ALL schedules of small configurations with the
+ *        regenerated micro-operation programs; the implementation side has no schedule control
+ *        and prints the expected "sched ok".
  *   seedx <N> <R> <keyhex> <draws>   as `seed`, with the first results of json_c_get_random_seed()
  *        scripted (comma list of ints, "xK" = K more copies of the previous value), e.g. the
  *        sentinel -1 on the first draws; afterwards the real source.
@@ -38,6 +43,7 @@
 // EXCLUDE: random_seed.c
 #include "common.h"
 #include <pthread.h>
+#include <sched.h>
 #include <signal.h>
 #include <sys/syscall.h>
 #include <sys/wait.h>
@@ -312,6 +318,54 @@ static void case_cont(char *args)
 	       __atomic_load_n(&put1_total, __ATOMIC_SEQ_CST));
 }
 
+/* ------------------------------------------------------------------ last: the LAST references released concurrently */
+/* Every round: a fresh node with N references, each owned by exactly one of N threads, nobody
+ * else holds one; all threads are released together (spinning on one flag, so that they really
+ * overlap) and call json_object_put.  Exactly one of the puts must return 1 and the delete
+ * callback must run exactly once per round. */
+static int last_R, last_go, last_done;
+
+static void *last_worker(void *arg)
+{
+	int r;
+	(void)arg;
+	for (r = 1; r <= last_R; r++) {
+		unsigned spins = 0;
+		while (__atomic_load_n(&last_go, __ATOMIC_ACQUIRE) < r)
+			if ((++spins & 127) == 0) sched_yield();
+		do_put(0);
+		__atomic_add_fetch(&last_done, 1, __ATOMIC_ACQ_REL);
+	}
+	return NULL;
+}
+
+static void case_last(char *args)
+{
+	int N, r, bad = 0, j;
+	long i;
+	unsigned long sd;
+	pthread_t th[MAXT];
+	if (sscanf(args, "%d %d %lu", &N, &last_R, &sd) != 3 || N < 1 || N > MAXT) { printf("BADLINE"); return; }
+	for (i = 0; i < N; i++) pthread_create(&th[i], NULL, last_worker, (void *)i);
+	for (r = 1; r <= last_R; r++) {
+		unsigned spins = 0;
+		struct json_object *x = (r & 1) ? json_object_new_object() : json_object_new_array();
+		if (r & 1) json_object_object_add(x, "k", json_object_new_int(r));
+		else json_object_array_add(x, json_object_new_int(r));
+		json_object_set_userdata(x, &destroyed[0], count_delete);
+		for (j = 1; j < N; j++) json_object_get(x);        /* N references, handed to the N threads */
+		nodes[0] = x;
+		__atomic_store_n(&last_done, 0, __ATOMIC_RELEASE);
+		__atomic_store_n(&last_go, r, __ATOMIC_RELEASE);
+		while (__atomic_load_n(&last_done, __ATOMIC_ACQUIRE) < N)
+			if ((++spins & 127) == 0) sched_yield();
+		if (__atomic_load_n(&destroyed[0], __ATOMIC_SEQ_CST) != r || __atomic_load_n(&put1_total, __ATOMIC_SEQ_CST) != r) bad++;
+	}
+	for (i = 0; i < N; i++) pthread_join(th[i], NULL);
+	printf("last rounds=%d destroyed=%d put1=%d bad=%d", last_R, __atomic_load_n(&destroyed[0], __ATOMIC_SEQ_CST),
+	       __atomic_load_n(&put1_total, __ATOMIC_SEQ_CST), bad);
+}
+
 /* ------------------------------------------------------------------ seed */
 static char *seed_key;
 static int seed_R;
@@ -492,6 +546,8 @@ void run_case(char *rest)
 		alarm(300);
 		if (strncmp(rest, "rc ", 3) == 0) case_rc(rest + 3);
 		else if (strncmp(rest, "cont ", 5) == 0) case_cont(rest + 5);
+		else if (strncmp(rest, "last ", 5) == 0) case_last(rest + 5);
+		else if (strncmp(rest, "sched", 5) == 0) printf("sched ok");   /* model-side schedule exploration: nothing to run here */
 		else if (strncmp(rest, "seed ", 5) == 0) case_seed(rest + 5);
 		else if (strncmp(rest, "seedx ", 6) == 0) case_seed(rest + 6);
 		else if (strncmp(rest, "trees ", 6) == 0) case_trees(rest + 6);
